@@ -586,7 +586,9 @@ impl Report
 	{
 		if self.messages.len() > 0
 		{
-			write!(writer, "").unwrap();
+			// (a diagnostic that cannot be written is dropped:
+			// there is nowhere left to report that)
+			let _ = write!(writer, "");
 		}
 		
 		for msg in &self.messages
@@ -599,7 +601,7 @@ impl Report
 				msg,
 				0);
 				
-			write!(writer, "{}", styler.result).unwrap();
+			let _ = write!(writer, "{}", styler.result);
 		}
 	}
 	
